@@ -4,6 +4,7 @@ go 1.22
 
 require (
 	github.com/whoisnian/glb v0.0.0
+	glborig v0.0.0
 	simgo v0.0.0
 )
 
